@@ -124,7 +124,10 @@ static void scenario(const vh::Json& sc, vh::Out& out, vh::Rng& rng, const vh::A
     fol.new_stream_callback(&on_new);
     fol.stream_termination_callback(&on_term);
     fol.follow_partial_streams(attach);
-    fol.stream_keep_alive(std::chrono::seconds(KA));
+    // one model tick is a second in half of the scenarios and 750 ms in the others (the keep-alive is then 7.5 s: not a whole number
+    // of seconds; capture times carry the same unit)
+    const long unit_ms = (out.sid % 2) ? 1000 : 750;
+    if (unit_ms == 1000) fol.stream_keep_alive(std::chrono::seconds(KA)); else fol.stream_keep_alive(std::chrono::milliseconds(KA * unit_ms));
     fol.verif_set_limits((size_t)maxChunks, (uint32_t)maxBytes);
     const vh::Json& pk = sc["pkts"];
     for (size_t i = 0; i < pk.size(); ++i) {
@@ -143,7 +146,7 @@ static void scenario(const vh::Json& sc, vh::Out& out, vh::Rng& rng, const vh::A
         eth /= tcp; if (len > 0) eth /= RawPDU(data.begin(), data.end());
         // through the wire, as a sniffer would deliver it
         std::vector<uint8_t> bytes = eth.serialize(); EthernetII parsed(&bytes[0], (uint32_t)bytes.size());
-        Packet pkt(parsed, Timestamp(std::chrono::seconds(p["ts"].num())));
+        Packet pkt(parsed, Timestamp(std::chrono::milliseconds((long long)p["ts"].num() * unit_ms)));
         ctx.cbs.clear(); ctx.snap = false; ctx.bufjson[0] = ctx.bufjson[1] = "[]"; ctx.chunks = ctx.bytes = 0;
         std::string thrown;
         try { fol.process_packet(pkt); } catch (std::exception& e) { thrown = std::string(typeid(e).name()) + ": " + e.what(); }
